@@ -55,7 +55,8 @@ CallPath ==
     /\ IF dead THEN UNCHANGED <<mode, ctx, ab, Xs, view, text, win, dead>>
        ELSE LET op   == PathOpOfEvent(E)
                 cand == UNION {AltsOf(ab, X, op, HasLeadDot(view)) : X \in Xs}
-                good == {X2 \in cand : E.view \in AdmissibleStep(ctx, HasLeadDot(view), ab, X2)}
+                vc   == ValidIn(ctx, E.view)
+                good == {X2 \in cand : AdmitsView(ctx, HasLeadDot(view), ab, X2, E.view, vc)}
             IN  IF E.panic \/ good = {}
                 THEN /\ Report(IF E.panic THEN "panic" ELSE "unexpected")
                      /\ dead' = TRUE /\ UNCHANGED <<mode, ctx, ab, Xs, view, text, win>>
